@@ -19,7 +19,7 @@ func init() { checks["C18"] = c18 }
 func c18(args []string) {
 	c := chk.New("C18", "exploration", args)
 	c.Build(false)
-	c.Rule("[carrier through MapToTags] in every fifth case the carrier of the sub-stream passes a tagging component before the joining process; [two members per producing task: both out-ports of the upstream process wired into one sub-stream] [path shapes] sub-streams whose members mix relative, parent-relative and absolute paths (command and Go-function consumers): all members, arrival order, each readable from the task's working directory, each an Upstream key; src(n) -> 1 or 2 upstream processes (random task durations) -> recorder -> StreamToSubStream -> task with {i:x|join:SEP}: sub-stream lengths {0,1,2,B,B+1,3B} for SCIPIPE_BUFSIZE B in {1,3} (thorough also 128), separators {' ', ',', ':', ' -I ', '.and.', '..'} (and, printed by printf, separators containing a newline; the same joined port used three times in one command with different modifiers; a Go function writing through OutIP().Write() in a task with a joined in-port; two sub-streams reaching one joined in-port with default output names; the same file arriving twice on one sub-stream; a sub-stream fed by a hand-written component instead of StreamToSubStream; members that carry tags of their own), maxConcurrentTasks in {1,4}; without modifiers the task command is vcmd, which opens every path it was given from its working directory; with modifiers (%.txt, s/x/y/, basename; written behind or in front of the join directive) the command is an echo and only the strings are judged; oracle: exactly one start event of the joining process, the member paths in its argv == the sequence the recorder in front of the sub-stream saw (arrival order), all readable, the recorded command contains them joined by exactly SEP with modifiers applied to each member, audit Upstream keys == member paths and each names the upstream task; plus close storms: 2-8 one-file sources fan into a StreamToSubStream, built and run 1500-3000 times inside one child process (hooks passive in most of them) - exactly one sub-stream must come out per run. distinct_nontrivial = distinct (length, B, separator, modifiers, fan-in, config) cases")
+	c.Rule("[gaps] one to three runs whose second member is produced 10.6-13.6 s after the first (limit 1): all members, once; [carrier through MapToTags] in every fifth case the carrier of the sub-stream passes a tagging component before the joining process; [two members per producing task: both out-ports of the upstream process wired into one sub-stream] [path shapes] sub-streams whose members mix relative, parent-relative and absolute paths (command and Go-function consumers): all members, arrival order, each readable from the task's working directory, each an Upstream key; src(n) -> 1 or 2 upstream processes (random task durations) -> recorder -> StreamToSubStream -> task with {i:x|join:SEP}: sub-stream lengths {0,1,2,B,B+1,3B} for SCIPIPE_BUFSIZE B in {1,3} (thorough also 128), separators {' ', ',', ':', ' -I ', '.and.', '..'} (and, printed by printf, separators containing a newline; the same joined port used three times in one command with different modifiers; a Go function writing through OutIP().Write() in a task with a joined in-port; two sub-streams reaching one joined in-port with default output names; the same file arriving twice on one sub-stream; a sub-stream fed by a hand-written component instead of StreamToSubStream; members that carry tags of their own), maxConcurrentTasks in {1,4}; without modifiers the task command is vcmd, which opens every path it was given from its working directory; with modifiers (%.txt, s/x/y/, basename; written behind or in front of the join directive) the command is an echo and only the strings are judged; oracle: exactly one start event of the joining process, the member paths in its argv == the sequence the recorder in front of the sub-stream saw (arrival order), all readable, the recorded command contains them joined by exactly SEP with modifiers applied to each member, audit Upstream keys == member paths and each names the upstream task; plus close storms: 2-8 one-file sources fan into a StreamToSubStream, built and run 1500-3000 times inside one child process (hooks passive in most of them) - exactly one sub-stream must come out per run. distinct_nontrivial = distinct (length, B, separator, modifiers, fan-in, config) cases")
 	c.Assume("with two upstream processes the arrival order is whatever the recorder saw; it is not predicted")
 	rng := c.Rand("c18")
 	type job struct {
@@ -29,6 +29,7 @@ func c18(args []string) {
 		fanin bool
 		max   int
 		cfg   Cfg
+		gapMS int // the second member's producer takes this long: a gap in the sub-stream
 	}
 	var jobs []*job
 	bs := []int{1, 3}
@@ -50,6 +51,11 @@ func c18(args []string) {
 				}
 			}
 		}
+	}
+	// a producer that takes more than ten seconds between two members (one task at a time): the joining task waits for
+	// the end of the sub-stream, however long the gaps
+	for g := 0; g < c.Pick(1, 3); g++ {
+		jobs = append(jobs, &job{n: 3, b: 3, sep: []string{"comma", "space", "colon"}[g%3], mods: "", max: 1, gapMS: 10600 + 1500*g, cfg: Cfg{Buf: 3, Procs: 2, NoHooks: g%2 == 0, SoftSec: 40}})
 	}
 	run.Parallel(len(jobs), func(i int) {
 		j := jobs[i]
@@ -77,6 +83,9 @@ func c18(args []string) {
 				s.Sources[f] = f + "\n"
 				if j.n <= 12 {
 					bh[vproto.TaskKey(fmt.Sprintf("U%d", u), []vproto.KV{{K: "in", V: f}}, nil, nil)] = map[string]string{"sleep": fmt.Sprint(lrng.Intn(30))}
+				}
+				if j.gapMS > 0 && k == 1 {
+					bh[vproto.TaskKey(fmt.Sprintf("U%d", u), []vproto.KV{{K: "in", V: f}}, nil, nil)] = map[string]string{"sleep": fmt.Sprint(j.gapMS)}
 				}
 			}
 			un := fmt.Sprintf("U%d", u)
